@@ -12,12 +12,14 @@ def run(ctx):
         ctx.validate("", "Trace_Life", "Trace_Life.cfg", ctx.replay, shards=1, label="replay (recorded trace)")
         return ctx.finish()
     # U1: repaired design (close signal) satisfies safety and liveness; the pinned design is refuted
-    for cfg in ["MC_Lifecycle.cfg", "MC_Lifecycle_K2.cfg", "MC_Lifecycle_NoAnswer.cfg", "MC_Lifecycle_TwoClosers.cfg"]:
+    for cfg in ["MC_Lifecycle.cfg", "MC_Lifecycle_K2.cfg", "MC_Lifecycle_NoAnswer.cfg", "MC_Lifecycle_TwoClosers.cfg", "MC_Lifecycle_Sender.cfg"]:
         ctx.tlc_mc("", "Lifecycle", cfg, workers=4)
     ctx.tlc_expect_violation("", "Lifecycle", "MC_Lifecycle_AsIs.cfg",
                              "pinned lock/queue protocol: Close waits for the write lock behind the reader parked on the full queue")
     ctx.tlc_expect_violation("", "Lifecycle", "MC_Lifecycle_TwoClosers_NoRecheck.cfg",
                              "variant without the second look at `closed` behind the write lock: the later of two overlapping Close calls closes the cleared queues")
+    ctx.tlc_expect_violation("", "Lifecycle", "MC_Lifecycle_Sender_Relock.cfg",
+                             "pinned SendRemainingPackets: the deferred Reset takes the read lock a second time; with a closer waiting for the write lock in between both wait for ever")
     # U2: stimuli sequences from TLC, replayed on the real channel
     scns = []
     for cfg in ["GenSim_Lifecycle.cfg", "GenSim_Lifecycle_K2.cfg"]:
